@@ -4,8 +4,8 @@ import (
 	"fmt"
 	"os"
 	"sort"
-	"time"
 	"strings"
+	"time"
 
 	"golang.org/x/tools/go/ssa"
 
